@@ -311,7 +311,7 @@ func init() {
 			"tag values are strings or points; lists occur as path geometry (IDs, points, mixed)",
 			"collections are not generated (compact worlds do not hold them)",
 			"a relation whose member is not in the file is valid input (ValidateRelation only checks the ID; OSM extracts are full of them)"},
-		Quick: 112, Thorough: 1600,
+		Quick: 112, Thorough: 4800,
 		// the cap is a safety net only: a case costs seconds, but the box may be shared and builds allocate ~80 MB per goroutine and stage
 		CaseCap: 30 * time.Minute,
 		Required: []string{"path_refs", "path_latlngs", "path_mixed", "area_refs", "area_latlngs", "area_mixed",
